@@ -550,6 +550,11 @@ def _expr_ops(cols=("a", "b", "c")):
         ("in_seq", a, (b, L(3))),
         ("in_seq", ("add", a, b), (L(3), L(4), c)),
         ("in_seq", a, ()),
+        # LogicalAnd / LogicalOr nodes built directly, with the arities the factories fold away
+        ("andn", ("gt", a, L(1))),
+        ("orn",),
+        ("andn",),
+        ("or", ("lt", a, L(2)), ("andn", ("eq", b, L(2)), ("orn",))),
     ]
     ops = [("sel", p) for p in preds]
     ops += [("calc", "x", e) for e in scal]
